@@ -162,15 +162,20 @@ func lexgenRun(c *Ctx, variant string) {
 				}
 			}
 			mi := s.modeIndex()
-			if len(p.LexModes) != len(s.Modes) {
+			// one table per DECLARED mode (mode numbers count the declared modes); when that fails the per-mode validators
+			// cannot be addressed, the inputs still run: the token stream after a mode switch is what C07 speaks about
+			modeCountOK := len(p.LexModes) == len(s.Modes)
+			if !modeCountOK {
 				c.EmitO("# mode count "+p.Name, fmt.Sprint(len(p.LexModes)), "C10: number of emitted mode tables differs from the number of modes | spec: "+specTxt)
-				continue
 			}
 			var modeStrs []string
 			for _, m := range p.LexModes {
 				modeStrs = append(modeStrs, joinI64(m))
 			}
 			for k, m := range s.Modes {
+				if !modeCountOK {
+					break
+				}
 				bop := "lex.bisim "
 				if variant != "greedy" {
 					bop = "lex.bisimng "
@@ -185,7 +190,9 @@ func lexgenRun(c *Ctx, variant string) {
 					emptyOK = emptyOK || s.nullable(ru.Expr)
 				}
 			}
-			if emptyOK {
+			if !modeCountOK {
+				c.Count("specs-with-missing-mode-tables")
+			} else if emptyOK {
 				// a start state that accepts is outside the premise of the progress theorems (known finding K3 is
 				// what happens without a mode action); table validator, runtime model and oracle still run
 				c.Count("specs-with-empty-matchable-rule")
